@@ -97,6 +97,7 @@ WHITELIST = [
     ("fixed_string_transform", ["arr2", "arr", "arr", "int", "int", "int", "arr"]),
     ("merge_indexed_journalled_entries", ["arr", "arr", "barr", "arr", "arr", "arr", "arr", "arr", "arr"]),
     ("ordered_map_valid_indexed_partial", ["arr", "int", "int", "arr", "int", "int", "arr", "int", "arr", "arr"] + ["int"] * 5),
+    ("_apply_spans_concat_2", ["arr", "arr", "arr", "arr", "arr"] + ["int"] * 6),
 ]
 
 LEAN_T = {"int": "Int", "bool": "Bool", "arr": "List Int", "barr": "List Bool", "opt_arr": "Option (List Int)",
